@@ -25,7 +25,7 @@ def run_case(model: Model, analyze, text: str, cfg, cwd: str, remote: bool = Fal
             exc = e
         except Exception as e:  # noqa: BLE001
             exc = e
-    if exc is not None or has_surrogate(text):
+    if exc is not None or has_surrogate(text) or rec.ambiguous:
         return d, None, exc, rec
     req = {"op": "analyze", "fuel": 64, "cmd": text, "cwd": cwd, "remote": remote, "world": rec.world()}
     if extra:
